@@ -207,7 +207,7 @@ Proof. exact tie_zip_delegations. Qed.
 (* which methods the impls that run caller code define themselves (regenerated, coq/gen/GenSigs.v):
    Clone defines clone only (clone_from is the standard default `*self = source.clone()`), Default
    default, FromIterator from_iter; the panic-safety theorems above cover exactly these bodies *)
-From GA Require Import SigTie.
+From GA Require Import SigDefs.
 From GAGen Require Import GenSigs.
 Local Open Scope string_scope.
 Theorem C04_source_impl_methods :
